@@ -265,6 +265,40 @@ def _flat_leaf(k, v, prefix=None):
     return [(".".join(toks), None, v)]
 
 
+def has_alias_pair(f):
+    """Does some mapping level spell the same (namespace-qualified) key twice?"""
+    seen = set()
+    for k, v in f.items():
+        if k in ("$and", "$or"):
+            if any(isinstance(x, dict) and has_alias_pair(x) for x in v):
+                return True
+        elif k == "$not":
+            if isinstance(v, dict) and has_alias_pair(v):
+                return True
+        else:
+            for key, op, _ in _flat_leaf(k, v):
+                if (key, op) in seen or (op is None and (key, "$eq") in seen) or (op == "$eq" and (key, None) in seen):
+                    return True
+                seen.add((key, op))
+            # also two spellings of the same top-level token (a / sp.a / {"sp": {"a": ..}})
+    tops = [".".join(t) for t in (_top_token(k) for k in f if not k.startswith("$"))]
+    norm = []
+    for k, v in f.items():
+        if k.startswith("$"):
+            continue
+        for key, _op, _ in _flat_leaf(k, v):
+            norm.append((key, k))
+    by_key = {}
+    for key, spelled in norm:
+        by_key.setdefault(key, set()).add(spelled)
+    return any(len(sp) > 1 for sp in by_key.values())
+
+
+def _top_token(k):
+    t = k.split(".")
+    return t if t[0] in ("sp", "doc") else ["sp"] + t
+
+
 def corpus_classes(docs, cl):
     if not docs:
         cl.add("empty_corpus")
@@ -311,6 +345,11 @@ def run_case(case, ctx):
             continue
         except (KeyError, ValueError, TypeError, AttributeError):
             ctx.skip("malformed_after_shrink")
+            continue
+        if has_alias_pair(f):
+            # {'a': ..., 'sp.a': ...}: two spellings of one key in one mapping is not a well-formed
+            # filter (the prefixed mapping can hold the key only once)
+            ctx.skip("alias_pair")
             continue
         keys = filter_classes(f, cl)
         try:
